@@ -444,6 +444,16 @@ pub fn run(args: &Args) -> serde_json::Value {
         }
     }
     oracle_failures.truncate(50);
+    // a slot-level balance failure of the Metropolis program is also a concrete failing input for the
+    // default samplers' convergence (C01, C04), one of the heat-bath program for C02
+    for f in oracle_failures.iter_mut() {
+        let prop = match f.get("variant").and_then(|v| v.as_str()) {
+            Some("metropolis") => "C08,C01,C04",
+            Some("heatbath") => "C08,C02",
+            _ => "C08,C01,C02,C04",
+        };
+        f["prop"] = json!(prop);
+    }
     let files = crate::write_shards(&args.out, "C08", "C08", &coq, if args.thorough { 700 } else { 120 });
     json!({"files": files, "evaluations": coq.len(), "distinct_nontrivial": distinct.len() + n_probes,
         "sweeps": n_sweeps, "heatbath_sweeps": n_hb, "sweeps_with_offdiagonal_ops": n_offdiag_cases,
